@@ -44,10 +44,10 @@ PROPS['C16'] = dict(level='proof', steps=[V('resources'), E3('c16-text', complet
                 text='every clause over a finite domain is decided by complete enumeration on the real functions: all 1 112 064 scalar values through text_string/decode_text_string, all 5 x 256 table entries (decode total, re-encode stable, published WinAnsi/MacRoman/PDFDoc values); multi-character strings and text extraction (also through a saved file) are bounded families; for extraction, Document::get_page_fonts is proved to collect fonts from the Resources of the page and of every ancestor, nearest first, held directly or by reference (Verus unit resources).',
                 note='std UTF-8/UTF-16 conversions trusted for the step from single characters to strings; Verus cannot reason about str, so no contract was placed on these functions')
 
-PROPS['C07'] = dict(level='proof', steps=[V('reader'), V('writer'), E3('c07-histories')],
+PROPS['C07'] = dict(level='proof', steps=[V('reader'), V('writer'), V('incr'), E3('c07-histories')],
                 title='Incremental updates: latest revision wins, history preserved',
-                technique='Verus contracts: Xref::merge first-wins, IncrementalDocument::save_internal prefix + revision layout, search_substring = last occurrence; bounded histories through the real loader',
-                text='Xref::merge never replaces an existing (newer) entry and adds every other one; incremental save emits the previous bytes unchanged followed by exactly one well-formed revision; startxref discovery takes the last occurrence (all unbounded, Verus). The Prev-chain loop and object-stream merge inside Reader::read are exercised on bounded histories only.',
+                technique='Verus contracts: Xref::merge first-wins, IncrementalDocument::save_internal prefix + revision layout, search_substring = last occurrence, IncrementalDocument::opt_clone_object_to_new_document (an object the update holds is never replaced by the older one; otherwise the update receives what the id resolves to in the previous revisions; previous bytes and objects untouched); bounded histories through the real loader',
+                text='Xref::merge never replaces an existing (newer) entry and adds every other one; incremental save emits the previous bytes unchanged followed by exactly one well-formed revision; startxref discovery takes the last occurrence; opt_clone_object_to_new_document (unit incr, together with Document::has_object, get_object, dereference, set_object as verified callees) leaves the previous revisions\' bytes and objects as they are, never replaces an object the update already holds, and otherwise stores under the id exactly what the id resolves to in the previous revisions (the end of its reference chain) or reports that lookup\'s error and changes nothing (all unbounded, Verus). The Prev-chain loop and object-stream merge inside Reader::read are exercised on bounded histories only.',
                 note='Reader::read (Prev loop, object-stream merge) is not under contract: bounded stand-in; nom parsers trusted')
 
 PROPS['C04'] = dict(level='proof', steps=[V('stream'), V('reader'), E3('c04-hostile'), E3('c04-depth', profile='dev')],
